@@ -259,6 +259,9 @@ fn check_backend<F: Backend>(
             sva.insert(var.index().unwrap(), arrays[var].clone());
         }
         sva.insert(Var::new().index().unwrap(), vec![7.0; n]);
+        // "extra supplied variables are ignored": also one whose array has
+        // another length (nothing ever reads it)
+        sva.insert(Var::new().index().unwrap(), vec![7.0; *rng.pick(&[0usize, 1, n + 1, 2 * n + 3])]);
         let got_arr: Vec<f32> = ev.eval_with_transform_and_var_arrays(&tape, &xs, &ys, &zs, &m, &sva).map(|o| o.to_vec()).map_err(|e| v("bulk_error", e.to_string(), setup()))?;
         let got_plain: Vec<f32> = ev.eval_with_vars(&tape, &xs, &ys, &zs, &sv).map(|o| o.to_vec()).map_err(|e| v("bulk_error", e.to_string(), setup()))?;
         let got_plain_arr: Vec<f32> = ev.eval_with_var_arrays(&tape, &xs, &ys, &zs, &sva).map(|o| o.to_vec()).map_err(|e| v("bulk_error", e.to_string(), setup()))?;
